@@ -1,7 +1,7 @@
 //! Verification shim: the contract of mio::Poll over epoll as used by open-coroutine-core.
 //! * register: EEXIST if the fd is registered; reregister/deregister: ENOENT if it is not;
 //! * an event for a source carries the Token and the interest of its latest (re)registration;
-//! * which registered sources fire is the harness's choice (`FIRE` bitmask).
+//! * which registered sources fire is the harness's choice (`FIRE` bitmask); a poll may fail (`POLL_FAIL_NEXT`).
 use std::cell::UnsafeCell;
 use std::io;
 use std::time::Duration;
@@ -37,6 +37,8 @@ pub static mut FAIL_NEXT: i32 = 0;
 pub static mut FAIL_ALL: i32 = 0;
 /// bitmask of table slots that fire on the next poll
 pub static mut FIRE: u8 = 0;
+/// errno the next poll fails with (0 = none): epoll_wait can fail (EINTR on any handled signal; mio does not retry)
+pub static mut POLL_FAIL_NEXT: i32 = 0;
 impl Registry {
     #[allow(clippy::mut_from_ref)]
     pub fn raw(&self) -> &mut [Option<Reg>; MAXREG] { unsafe { &mut *self.table.get() } }
@@ -66,6 +68,7 @@ impl Poll {
     pub fn registry(&self) -> &Registry { &self.registry }
     pub fn poll(&mut self, events: &mut Events, _timeout: Option<Duration>) -> io::Result<()> {
         events.n = 0;
+        unsafe { if POLL_FAIL_NEXT != 0 { let e = POLL_FAIL_NEXT; POLL_FAIL_NEXT = 0; return Err(io::Error::from_raw_os_error(e)); } }
         let t = self.registry.raw(); let mut i = 0;
         while i < MAXREG {
             if unsafe { FIRE } & (1 << i) != 0 { if let Some(r) = &t[i] { events.buf[events.n] = event::Event { token: r.token, bits: r.interest.bits() }; events.n += 1; } }
